@@ -226,3 +226,49 @@ Proof.
   - apply (entry_of_arg rend c _ ma a vp Hf Hvp).
 Qed.
 End Parse.
+
+(** * every level of the recursion (the hypotheses of C02's [level_indices]: any depth, any entry state
+      satisfying the index invariant and the typed invariant -- in particular the fresh state a child starts from) *)
+Section AnyLevel.
+Variable rend : Cmd.vparser -> bytes -> bytes.
+Variables (fuel : nat) (c : cmd) (toks : list bytes) (st0 st : ps).
+Hypothesis Hok : tree_ok fuel c.
+Hypothesis HG : G c idx_inv trivV st0.
+Hypothesis HT : TS c st0.
+Hypothesis Hr : get_matches_with fuel c toks st0 = ROk st.
+
+Notation S1 := (store_of rend c (mt_args (mt st))).
+
+Theorem level_store_wf : TSP.wf_store S1.
+Proof. apply store_of_wf. apply (level_indices fuel c toks st0 st Hok HG Hr). Qed.
+
+Theorem level_store_typed i en : TSP.lookup S1 i = Some en ->
+  exists ma, fm_get i (mt_args (mt st)) = Some ma /\ en = entry_of rend c i ma /\ TSt.e_raw en = m_raw ma /\
+    forall a vp, find_arg c i = Some a -> a_vp a = Some vp ->
+      TSt.e_type en = Some (vp_type vp) /\
+      TSt.e_vals en = map (map (fun r => (vp_type vp, rend vp r))) (m_raw ma) /\
+      exists tvs, typed_of vp (m_raw ma) tvs.
+Proof.
+  rewrite store_of_lookup. destruct (fm_get i (mt_args (mt st))) as [ma|] eqn:Eg; cbn; [|discriminate].
+  intros H. inversion H; subst en. exists ma. split; [reflexivity|]. split; [reflexivity|].
+  split; [apply (entry_of_shape rend c i ma)|].
+  intros a vp Hf Hvp. destruct (entry_of_arg rend c i ma a vp Hf Hvp) as [H1 H2]. split; [exact H1|]. split; [exact H2|].
+  assert (Happ : assert_app c = true) by (destruct fuel; [destruct Hok|apply Hok]).
+  pose proof (gmw_typed fuel c toks st0 Happ HT) as Ht. rewrite Hr in Ht. cbn [holds] in Ht. destruct Ht as [Ht _].
+  apply Safe.fm_get_in in Eg. destruct Eg as [k' [Hin Hb]]. apply beq_eq in Hb. subst k'.
+  eapply entry_typed_view; eassumption.
+Qed.
+
+Theorem level_store_access dbg ops :
+  let '(xs, S') := TSt.run dbg S1 ops in
+  let '(ys, m') := TSP.arun dbg (TSt.valid_args S1) (TSP.lookup S1) ops in
+  Forall2 TSP.out_sim xs ys /\ (forall i, TSP.lookup S' i = m' i) /\ TSP.wf_store S' /\
+  TSt.valid_args S' = TSt.valid_args S1 /\ ~ In TSt.OPanic xs.
+Proof. apply TSP.run_refines; [apply level_store_wf|reflexivity]. Qed.
+
+Theorem level_failing_access dbg o e : fst (TSt.step dbg S1 o) = TSt.OErr e ->
+  forall i, TSP.lookup (snd (TSt.step dbg S1 o)) i = option_map (entry_of rend c i) (fm_get i (mt_args (mt st))).
+Proof.
+  intros H i. rewrite (failing_access_frame dbg S1 o e level_store_wf H). apply store_of_lookup.
+Qed.
+End AnyLevel.
